@@ -12,7 +12,9 @@ def key(f: Func | None, node):
 
 def loc(f_or_rel, node):
     rel = f_or_rel.rel if isinstance(f_or_rel, Func) else f_or_rel
-    return f"{rel}:{getattr(node, 'lineno', 0)}"
+    from sa.inline import true_line
+
+    return f"{rel}:{true_line(node)}"
 
 
 def calls_in(node):
